@@ -174,7 +174,8 @@ theorem addEmptyTopLevel_spec {S : Nat → Bool} (s : Sketch) {b : Nat} (h : Hea
   generalize hdc : levelCapacity s.k (s.numLevels + 1) 0 s.m = dc
   obtain ⟨hg1, hg2⟩ := growLevels_length s.levels (s.numLevels + 2)
   have hgg := growLevels_getD s.levels (s.numLevels + 2)
-  generalize hG : growLevels s.levels (s.numLevels + 2) = G at hg1 hg2 hgg
+  have hg3 := growLevels_length_eq s.levels (s.numLevels + 2) (by omega)
+  generalize hG : growLevels s.levels (s.numLevels + 2) = G at hg1 hg2 hgg hg3
   apply vstep_alloc' _ _ hSn
   intro h1 hc1 hr1 so1 hid1 hnx1
   apply step_deref_eq hb
